@@ -219,6 +219,8 @@ def history_cases(draw):
         s['flux'] = [v * 1.5 if isinstance(v, float) else v for v in s['flux']]
         c['sources'].append(s)
     c['mode'] = mode
+    # some sources carry integer-typed photometry
+    c['sources'] = [gen.integerize(s) if draw(st.integers(0, 4)) == 0 else s for s in c['sources']]
     return c
 
 
